@@ -1,7 +1,8 @@
 //! C08 — writers are atomic and readers keep a consistent snapshot (engine E2).
 //!
-//! A writer participant runs a scripted history of five transactions (three commits, one
-//! abort after a successful build, one abort after a cancelled build); it yields before every
+//! A writer participant runs a scripted history of nine transactions (six commits — one of items
+//! only, one of a build only, one of an overwrite without a build —, two aborts after a successful
+//! build, one abort after a cancelled build); it yields before every
 //! API call, at every poll of the cancel callback and every progress call inside each build,
 //! and around commit / abort. Reader participants open a snapshot at one enumerated yield
 //! point and re-observe it at every later one.
@@ -28,36 +29,56 @@ const DIM: usize = 2;
 const WRITER: usize = 0;
 
 fn vec_for(id: u32, version: u32) -> Vec<u32> {
-    let a = ((id * 3 + version * 5) % 7) as f32 - 3.0;
-    let b = ((id * 5 + version) % 5) as f32 - 2.0;
+    let a = ((id.wrapping_mul(3).wrapping_add(version * 5)) % 7) as f32 - 3.0;
+    let b = ((id.wrapping_mul(5).wrapping_add(version)) % 5) as f32 - 2.0;
     vec![a.to_bits(), (if a == 0.0 && b == 0.0 { 1.0 } else { b }).to_bits()]
 }
 
-/// The model after each committed version (index 0 = before the first commit) and whether
-/// that version is built. Version 1 is committed *unbuilt* (items only); the writer then
-/// builds and aborts, and builds again and commits (version 2) without touching an item.
+/// The model after each committed version (index 0 = before the first commit). Version 1 is
+/// committed *unbuilt* (items only); the writer then builds and aborts, and builds again and
+/// commits (version 2) without touching an item; version 4 overwrites the largest id and is
+/// committed without a build (*stale*: it must be refused with NeedBuild).
 fn models() -> Vec<BTreeMap<u32, Vec<u32>>> {
     let mut out = vec![BTreeMap::new()];
     let mut m = BTreeMap::new();
-    for id in 0..6u32 {
+    for id in (0..6u32).chain([u32::MAX]) {
         m.insert(id, vec_for(id, 1));
     }
     out.push(m.clone()); // v1: items, not built
     out.push(m.clone()); // v2: the same items, built
     m.remove(&1);
     out.push(m.clone()); // v3: one deletion only (buckets rewritten in place under the same node ids)
+    m.insert(u32::MAX, vec_for(u32::MAX, 4));
+    out.push(m.clone()); // v4: the largest id overwritten, committed without a build
     m.insert(2, vec_for(2, 2));
     m.insert(7, vec_for(7, 2));
-    out.push(m.clone()); // v4
+    out.push(m.clone()); // v5
     // (aborted): add 8 ; (cancelled, aborted): add 9
     m.insert(10, vec_for(10, 3));
     m.remove(&3);
-    out.push(m); // v5
+    out.push(m); // v6
     out
 }
 
+#[derive(Clone, Copy, PartialEq, Debug)]
+enum VState {
+    /// no metadata: Reader::open = MissingMetadata
+    Unbuilt,
+    Built,
+    /// built once, items changed since: Reader::open = NeedBuild
+    Stale,
+}
+
+fn version_state(version: usize) -> VState {
+    match version {
+        0 | 1 => VState::Unbuilt,
+        4 => VState::Stale,
+        _ => VState::Built,
+    }
+}
+
 fn is_built(version: usize) -> bool {
-    version >= 2
+    version_state(version) == VState::Built
 }
 
 struct Env2 {
@@ -107,7 +128,7 @@ fn writer_script(env: &crate::common::Env, db: RawDb, y: &(dyn Fn(&'static str) 
     // v1: items committed without a build
     y("begin");
     let mut wtxn = env.write_txn().map_err(he)?;
-    for id in 0..6u32 {
+    for id in (0..6u32).chain([u32::MAX]) {
         y("add");
         writer.add_item(&mut wtxn, id, &floats_of(&vec_for(id, 1))).map_err(e)?;
     }
@@ -155,7 +176,20 @@ fn writer_script(env: &crate::common::Env, db: RawDb, y: &(dyn Fn(&'static str) 
         let r = env.read_txn().map_err(he)?;
         dumps.push(dump(db, &r));
     }
-    // v4
+    // v4: the largest id overwritten and committed without a build (a stale version)
+    y("begin");
+    let mut wtxn = env.write_txn().map_err(he)?;
+    y("add");
+    writer.add_item(&mut wtxn, u32::MAX, &floats_of(&vec_for(u32::MAX, 4))).map_err(e)?;
+    y("commit");
+    wtxn.commit().map_err(he)?;
+    commits.fetch_add(1, Ordering::SeqCst);
+    y("committed");
+    {
+        let r = env.read_txn().map_err(he)?;
+        dumps.push(dump(db, &r));
+    }
+    // v5
     y("begin");
     let mut wtxn = env.write_txn().map_err(he)?;
     y("add");
@@ -199,7 +233,7 @@ fn writer_script(env: &crate::common::Env, db: RawDb, y: &(dyn Fn(&'static str) 
     y("abort");
     wtxn.abort();
     y("aborted");
-    // v5
+    // v6
     y("begin");
     let mut wtxn = env.write_txn().map_err(he)?;
     y("add");
@@ -235,11 +269,20 @@ fn observe(db: RawDb, rtxn: &RoTxn, c: usize, refs: &[Kv], models: &[BTreeMap<u3
     let model = &models[c];
     let r = catch(|| -> Result<(), (String, String)> {
         let open = arroy::Reader::<D>::open(rtxn, 0, arroy_db::<D>(db));
-        if !is_built(c) {
-            return match open {
-                Err(arroy::Error::MissingMetadata(_)) => Ok(()),
-                other => Err(("A/open-unbuilt-version".into(), format!("open of version {c} (never built) = {:?}", other.map(|_| "Ok").map_err(|e| ErrKind::of(&e).tag())))),
-            };
+        match version_state(c) {
+            VState::Unbuilt => {
+                return match open {
+                    Err(arroy::Error::MissingMetadata(_)) => Ok(()),
+                    other => Err(("A/open-unbuilt-version".into(), format!("open of version {c} (never built) = {:?}", other.map(|_| "Ok").map_err(|e| ErrKind::of(&e).tag())))),
+                };
+            }
+            VState::Stale => {
+                return match open {
+                    Err(arroy::Error::NeedBuild(_)) => Ok(()),
+                    other => Err(("A/open-stale-version".into(), format!("open of version {c} (items changed since its last build) = {:?}", other.map(|_| "Ok").map_err(|e| ErrKind::of(&e).tag())))),
+                };
+            }
+            VState::Built => {}
         }
         let reader = open.map_err(|e| ("A/open-failed".to_string(), format!("version {c} does not open: {e}")))?;
         api_view(&reader, rtxn, c, model)
@@ -764,7 +807,7 @@ pub fn run(tier: Tier) -> i32 {
     report.cov("many_readers_in_one_schedule", many.len() as u64);
     report.cov("reader_observations", observations.load(Ordering::Relaxed));
     report.cov("exhaustive", true);
-    report.cov("oracle", "a reader opening when c commits have completed must see exactly committed version c: its raw dump through its own RoTxn equals byte for byte the reference dump of version c of the uninterrupted run (never a mixture), Reader::open fails with MissingMetadata for c = 0 and otherwise opens, item ids and vectors equal the committed model, exhaustive queries equal the brute-force model; a held snapshot never changes, whatever is written, built, committed or aborted meanwhile; after every abort a fresh snapshot equals the last committed version; the writer's committed versions do not depend on the readers");
+    report.cov("oracle", "a reader opening when c commits have completed must see exactly committed version c: its raw dump through its own RoTxn equals byte for byte the reference dump of version c of the uninterrupted run (never a mixture), Reader::open fails with MissingMetadata for the versions never built (0, 1), with NeedBuild for the version committed after an overwrite without a build (4), and otherwise opens, item ids and vectors equal the committed model, exhaustive queries equal the brute-force model; a held snapshot never changes, whatever is written, built, committed or aborted meanwhile; after every abort a fresh snapshot equals the last committed version; the writer's committed versions do not depend on the readers");
     report.cov("bounds", json!({"writer": "8 transactions on one Writer: v1 items committed unbuilt, build then abort, the same build committed (v2), v3 one deletion+build+commit, v4 overwrite/add+build+commit, build then abort, cancelled build then abort, v5 add/delete+build(3 trees)+commit", "reader placements": "every opening point for one reader; pairs of opening points for two readers (grid in quick, all pairs in thorough); pairs of opening points for one thread holding two snapshots and their Reader objects; one schedule with a new reader at every (4th) yield point"}));
     report.sample(json!({"schedule": "reader opens at writer yield point 57 (inside the first build), re-observes at every later point, reopens at the end", "expected": "MissingMetadata and an empty dump for as long as the snapshot is held; version 3 after reopening"}));
     report.finish()
